@@ -26,7 +26,7 @@ WORLD_INFO = {'real': ['ResponseFuture (PreparedQueryNotFound branch, _reprepare
               'stub': ['libev C binding', 'sockets/TCP', 'ThreadPoolExecutor', 'fake nodes with a per-node prepared cache (independent codec)']}
 ASSUMPTIONS = ['prepared ids are md5(keyspace|query) at the fake node; for protocol 4 the keyspace is the connection keyspace']
 REQUIRED_PROBES = ['prepared_in_other_keyspace', 'unprepared_answer', 'reprepare_ok', 'reprepare_different_id', 'reprepare_error', 'reprepare_conn_loss',
-                   'keyspace_changed_after_prepare']
+                   'keyspace_changed_after_prepare', 'statement_id_dropped_from_registry']
 
 QUERY = "SELECT * FROM t WHERE k=? /*stmt*/"
 
@@ -48,6 +48,7 @@ def gen_plan(rng, tier):
     p['ks_switch'] = (p['version'] == 4 and rng.random() < 0.25)
     # protocol 5 carries a keyspace per request: prepare in a keyspace other than the session's
     p['prepare_ks'] = 'ks2' if (p['version'] >= 5 and rng.random() < 0.5) else None
+    p['dup_prepare'] = rng.random() < 0.25
     nreq = rng.choice([1, 2, 3])
     for i in range(nreq):
         order = list(range(n))
@@ -86,6 +87,16 @@ def run_plan(plan, seed, choices=None):
         except Exception as e:
             st['prepare_error'] = repr(e)
             return
+        if plan.get('dup_prepare'):
+            # the application prepares the same text a second time elsewhere and lets that statement object go: the cluster-wide
+            # registry (weak values, keyed by statement id) then no longer knows the id, the first object is still in use
+            try:
+                ps2 = session.prepare(QUERY, keyspace=plan.get('prepare_ks')) if plan.get('prepare_ks') else session.prepare(QUERY)
+                del ps2
+                sim.probe('statement_id_dropped_from_registry')
+            except Exception as e:
+                st['prepare_error'] = repr(e)
+                return
         st['ps'] = ps
         ps.is_idempotent = True     # bound statements inherit it; needed for speculative executions
         if plan['ks_switch']:
